@@ -199,6 +199,7 @@ def run(ctx, cases_override=None):
             elif len(samples) < 8 and r["ev"] in ("Add", "Read", "Rename"):
                 samples.append(r)
     pred_drift = sum(1 for d in ctx.drift if "pred" in d["what"])
+    sread_drift = sum(1 for d in ctx.drift if "sessionread" in d["what"])
     cov = {
         "traces_validated_against_impl": res["traces"],
         "samples": samples,
@@ -212,8 +213,14 @@ def run(ctx, cases_override=None):
         "exhaustive": False,
         "exhaustive_part": "classes xa/xb: TLC enumerates every history up to the length bound over 3 names x {add(rep),add(norep),remove,rename,compact,flush,reopen}; xb is replayed completely, xa as a seed-rotated residue class (quick 1/3 of <= 3 calls, thorough 1/6 of <= 4 calls)",
         "code_model_prediction_drift": pred_drift,
+        "session_read_drift": sread_drift,
     }
-    ctx.drift = [d for d in ctx.drift if "list" not in d["what"]][:20] + [d for d in ctx.drift if "list" in d["what"]][:3]
+    if sread_drift:
+        ctx.notes.append(f"D-level: {sread_drift} of {kinds.get('SRead', 0)} in-session MutableArchive::read_file calls right after a successful add "
+                         "did not return the added bytes (read_current_file delegates compressed/encrypted blocks to the Archive opened "
+                         "earlier, which does not know the new block: FileNotFound); the property speaks about the reopened archive only")
+    ctx.drift = ([d for d in ctx.drift if "list" not in d["what"] and "sessionread" not in d["what"]][:14]
+                 + [d for d in ctx.drift if "sessionread" in d["what"]][:3] + [d for d in ctx.drift if "list" in d["what"]][:3])
     assumptions = ["single process, no concurrent writer; the file system does not fail",
                    "starting archives are produced by ArchiveBuilder (16-slot hash table, tables behind the data)",
                    "a call that does not return within 5 s (normal: < 5 ms) is recorded as a hang"]
